@@ -10,8 +10,8 @@ from gens import pack, fmt_hex
 from vlib import Broken
 
 ID = "C18"
-LEAN_MODULES = ["LexVerif.Props.C18"]
-GEN = ["format_flags"]
+LEAN_MODULES = ["LexVerif.Props.C18", "LexVerif.Props.Literals.UtilFormatFlags", "LexVerif.Props.Literals.UtilFeatureFormat", "LexVerif.Props.Literals.UtilNotFeatureFormat", "LexVerif.Props.Literals.UtilFormatBuilder", "LexVerif.Props.Literals.ParseFloatApi", "LexVerif.Props.Literals.ParseFloatOptions", "LexVerif.Props.Literals.ParseIntegerApi", "LexVerif.Props.Literals.WriteFloatOptions", "LexVerif.Props.Literals.WriteFloatWrite", "LexVerif.Props.Literals.WriteIntegerApi"]
+GEN = ["format_flags", "literals"]
 TRUSTED = [
     "Lean 4.33.0 kernel; axioms of each theorem listed under coverage.theorems",
     "R tie: harness `dump format_flags` (prints the constants of the compiled crate) and extractors/format_flags.py",
@@ -204,7 +204,95 @@ def streams(tier, rng, fs, profile):
         ("vp", vp_ops(rng, n // 4)),
         ("rb", rb_ops(rng, n // 4)),
         ("api-invalid", api_ops()),
+        ("opts-strings", opts_string_ops(rng, tier)),
     ]
+
+
+LETTERS = "abcdefghijklmnopqrstuvwxyz"
+
+
+def _special_strings(first, rng):
+    """candidate special strings: valid and invalid ones around every documented constraint"""
+    out = [None, "", first, first.upper(), first + "a", "x" + first, first + "1", first + "_", first + " ", first + "\xff",
+           first + "a" * 48, first + "a" * 49, first + "a" * 50, first + "a" * 51, first.upper() + "B" * 49, first + "A" * 99]
+    for _ in range(3):
+        n = rng.choice([2, 3, 8, 49, 50, 51])
+        out.append(first + "".join(rng.choice(LETTERS + LETTERS.upper()) for _ in range(n - 1)))
+    return out
+
+
+def parse_opts_spec(exp, dp, nan, inf, infinity):
+    """documented validity of ParseFloatOptions (docs of lexical-parse-float/src/options.rs): error kind or None"""
+    def ascii_ok(c):
+        return c < 0x80
+    if not ascii_ok(exp):
+        return "InvalidExponentSymbol"
+    if not ascii_ok(dp):
+        return "InvalidDecimalPoint"
+    letters = lambda s: all(ch in LETTERS or ch in LETTERS.upper() for ch in s)
+    if nan is not None:
+        if nan == "" or nan[0] not in "Nn" or not letters(nan):
+            return "InvalidNanString"
+        if len(nan) > 50:
+            return "NanStringTooLong"
+    if inf is not None and infinity is None:
+        return "InfinityStringTooShort"
+    if inf is not None:
+        if inf == "" or inf[0] not in "Ii" or not letters(inf):
+            return "InvalidInfString"
+        if len(inf) > 50:
+            return "InfStringTooLong"
+    if infinity is not None:
+        if infinity == "" or infinity[0] not in "Ii" or not letters(infinity):
+            return "InvalidInfinityString"
+        if len(infinity) > 50:
+            return "InfinityStringTooLong"
+        if inf is not None and len(infinity) < len(inf):
+            return "InfinityStringTooShort"
+    return None
+
+
+def _h(s):
+    return "-" if s is None else ("_" if s == "" else s.encode("latin-1").hex())
+
+
+def opts_string_ops(rng, tier):
+    """ParseFloatOptions / WriteFloatOptions builders on special strings around every documented constraint"""
+    ops = []
+    std = "a0000000000000000000000000c"
+    nans = _special_strings("n", rng)
+    infs = _special_strings("i", rng)
+    combos = []
+    for nan in nans:
+        combos.append((nan, "inf", "infinity"))
+    for inf in infs:
+        combos.append(("NaN", inf, "infinity"))
+        combos.append(("NaN", inf, inf))
+        combos.append(("NaN", inf, None))
+    for infinity in infs:
+        combos.append(("NaN", "inf", infinity))
+        combos.append(("NaN", None, infinity))
+        combos.append(("NaN", "i" + "n" * 49, infinity))
+    for (nan, inf, infinity) in combos:
+        for (e, d) in ((101, 46), (200, 46), (101, 255)):
+            ops.append("pf f64 %s 0 0 %d %d %s %s %s 31" % (std, e, d, _h(nan), _h(inf), _h(infinity)))
+        ops.append("wf f64 %s 3ff8000000000000 - - - - r 0 101 46 %s %s -" % (std, _h(nan), _h(inf)))
+    return list(dict.fromkeys(ops))
+
+
+def op_check(op, ir, fs, profile):
+    """option builders: the reported configuration error must be the documented one"""
+    t = op.split(" ")
+    if t[0] != "pf" or len(t) != 11 or t[-1] != "31":
+        return None
+    un = lambda h: None if h == "-" else ("" if h == "_" else bytes.fromhex(h).decode("latin-1"))
+    want = parse_opts_spec(int(t[5]), int(t[6]), un(t[7]), un(t[8]), un(t[9]))
+    got = ir.split(" ")
+    if want is None:
+        return None if got[0] != "opterr" else "valid options rejected by the builder: " + ir
+    if got[0] != "opterr" or got[1] != want:
+        return "invalid options: expected configuration error %s, got `%s`" % (want, ir)
+    return None
 
 
 def nontrivial(op, res):
